@@ -258,6 +258,10 @@ func simReactor(cs *compState) {
 		}
 	}
 	if reason == "done" {
+		// nothing is in progress any more: the tokens in use are exactly the tracked seeds (a refused insert keeps none)
+		if used, tab := reactor.XTokensInUse(), tableIDs(); used >= 0 && used != len(tab) {
+			k.Violate("C12", "bounded", "tokens-in-use-differ-from-tracked-seeds", fmt.Sprintf("every call has returned: %d tokens are in use, %d seeds are tracked %v", used, len(tab), tab))
+		}
 		for id := range accepted {
 			if delivered[id] < 1+reinserted[id] {
 				k.Violate("C12", "output", "accepted-seed-not-delivered", fmt.Sprintf("%s accepted, fed back %d times, but seen on the output %d times", id, reinserted[id], delivered[id]))
